@@ -200,6 +200,10 @@ pub fn parse_name(cfg: &Cfg, name: &str) -> Parsed {
             st,
         };
     }
+    if !cfg.rot {
+        // without rotation there is no infix
+        return foreign;
+    }
     if !cfg.fixed_is_empty() {
         match rest.strip_prefix('_') {
             Some(x) => rest = x,
